@@ -287,17 +287,26 @@ PROPS = {
         "level": "exploration",
         "workers": 16,
         "engine": "E1-pure",
-        "technique": "property-based testing (proptest) + exhaustive small-scope sweep; oracle: set model of both advertised sync states",
+        "technique": ("property-based testing (proptest) + exhaustive small-scope sweep; oracle: set model of the advertised sync states "
+                      "(pure: compute_available_needs; wire: the Request frames the real parallel_sync sends to 1-3 harness-played QUIC servers)"),
         "level_text": ("generated pairs of well-formed sync states checked against a set model in both directions (completeness: every "
                        "version / missing seq the peer holds and we lack is requested; bounds: within the peer's head, only advertised actors, "
-                       "never our own actor, partial requests inside what we miss); one-actor scope with heads<=3 swept exhaustively"),
-        "level_note": "trusts the harness' set model of 'holds'/'lacks' derived from the generated states; compute_available_needs is the real code",
+                       "never our own actor, partial requests inside what we miss); one-actor scope with heads<=3 swept exhaustively; "
+                       "sub-campaign `wire`: a real setup() node runs the real parallel_sync over a real Transport against 1-3 servers played by "
+                       "the harness on real QUIC endpoints, which answer the handshake with generated states and record every Request frame "
+                       "(block cutting by ten, hand-out ten at a time, de-duplication across the servers of a round) - same set model, "
+                       "completeness modulo the de-duplication (requested from at least one server that can be asked for it)"),
+        "level_note": ("trusts the harness' set model of 'holds'/'lacks' derived from the generated states; compute_available_needs and parallel_sync are "
+                       "the real code; the servers of the wire sub-campaign are harness code speaking the real frame format"),
         "rule": ("generated: 1-4 actors, heads 0..=16 or unknown on either side, per version Held/Need/Partial with a hidden shared last_seq "
                  "(0..=9) and a proper non-empty missing-seq set, the peer optionally advertising our own actor id; sweep: 1 actor, heads<=3, "
                  "every class combination. Non-trivial: both sides have gaps AND some version is partial on both sides with different missing sets. "
-                 "Distinct = hash of the generated pair."),
+                 "wire: 1-3 actors, heads up to 45, 1-3 servers; non-trivial: several servers AND a Full need cut into blocks AND something "
+                 "several servers could be asked for AND a missing sequence some server has. Distinct = hash of the generated case."),
         "assumptions": ["well-formed states as generate_sync produces them: the head version itself is never in `need`; partial versions lie within the head",
-                        "requests for versions above our head are bounded by the peer's head only (the statement does not require excluding versions the peer itself needs)"],
+                        "requests for versions above our head are bounded by the peer's head only (the statement does not require excluding versions the peer itself needs)",
+                        "wire: with several servers in one round the client asks one of them for each item (its de-duplication); the check demands a request to at "
+                        "least one server that can be asked for the item, and the full statement when there is one server"],
     },
     "C08": {
         "level": "exploration",
